@@ -9,7 +9,6 @@ the reference model numerically on 3 fixed environments.
 """
 from __future__ import annotations
 
-import itertools
 import json
 import time
 import zlib
@@ -24,7 +23,7 @@ TECHNIQUE = ("explicit-state bounded exhaustive enumeration of labelled compartm
              "operation sequences on the real builder, every state compared with a reference model")
 LEVEL_TEXT = (
     "Every labelled directed graph up to the stated number of compartments (every subset of the possible flows, "
-    "every dose/input placement of the stated menu, four rate-expression schemes) and every sequence of builder "
+    "every dose/input placement of the stated menu, five rate-expression schemes) and every sequence of builder "
     "operations up to the stated depth from the stated base systems is generated (no sampling) and built through "
     "the real CompartmentalSystemBuilder; all observables are compared with a reference model written from the "
     "definition (d a/dt = inflows - outflows + input). Ordering, sign, transpose and relabelling faults need an "
@@ -34,7 +33,7 @@ LEVEL_NOTE = (
     "trusted: the reference model vlib/c05_ref.py (dict of compartments + dict of flows, float evaluation of the "
     "rate descriptors) and the tree evaluator vlib/xeval.py; expressions are compared by value on 3 fixed "
     "environments with generic positive values (1e-7 relative), not structurally; nothing is claimed for graphs "
-    "larger than the bound, rate shapes outside the 4 schemes, or compartments sharing a name"
+    "larger than the bound, rate shapes outside the 5 schemes, or compartments sharing a name"
 )
 RULE = (
     "part G: all labelled digraphs on n named compartments = every subset of the edges {i->j, i->output} "
@@ -827,8 +826,10 @@ def run_seq(base_idx, depth, pool, first, res, level):
 
     def rec(prog, cs, ref, d):
         ops = ops_at(ref, pool)
-        if d == 0:
-            ops = [ops[first]] if first < len(ops) else []
+        lead = True  # this shard is the first one sharing the prefix up to depth d: it owns the prefix states
+        if d < len(first):
+            ops = [ops[first[d]]] if first[d] < len(ops) else []
+            lead = all(x == 0 for x in first[d + 1:])
         for op in ops:
             cb = CompartmentalSystemBuilder(cs)
             st, msg, ref2 = step(cb, ref, op)
@@ -850,7 +851,8 @@ def run_seq(base_idx, depth, pool, first, res, level):
                 res["outcomes"]["move_dose_without_doses_accepted"] = res["outcomes"].get(
                     "move_dose_without_doses_accepted", 0) + 1
             cs2 = CompartmentalSystem(cb)
-            visit(p2, cs2, ref2)
+            if lead:
+                visit(p2, cs2, ref2)
             if d + 1 < depth:
                 rec(p2, cs2, ref2, d + 1)
 
@@ -909,10 +911,15 @@ def shards(tier):
     pool = POOL4
     for b, depth in S_PLANS[tier]:
         _, ref0, _, _, _ = run_prog(BASES[b])
-        nops = len(ops_at(ref0, pool))
         out.append(("S", b, depth, pool, None))
-        for f in range(nops):
-            out.append(("S", b, depth, pool, f))
+        ops0 = ops_at(ref0, pool)
+        for f in range(len(ops0)):
+            ref1 = ref0.copy()
+            if len(ops0) > 8 or depth < 2 or ref1.apply(ops0[f]) != "ok":
+                out.append(("S", b, depth, pool, [f]))
+            else:  # few first operations (empty builder): shard by the first two operations
+                for f2 in range(len(ops_at(ref1, pool))):
+                    out.append(("S", b, depth, pool, [f, f2]))
     if tier == "thorough":
         for fam in F_FAMS:
             for n in (5, 6):
